@@ -470,5 +470,6 @@ DOCS = {
     'rows': ('[{a: i1, b: [i2]}, {a: i3, b: []}]', lambda i1, i2, i3: [{'a': i1, 'b': [i2]}, {'a': i3, 'b': []}]),
     'list': ('[i1, i2, i3]', lambda i1, i2, i3: [i1, i2, i3]),
     'int': ('i1', lambda i1, i2, i3: i1),
+    'pair': ('[i1, i2]', lambda i1, i2, i3: [i1, i2]),
     'nest': ('{a: {a: i1, b: i2}, b: [{a: i3}]}', lambda i1, i2, i3: {'a': {'a': i1, 'b': i2}, 'b': [{'a': i3}]}),
 }
